@@ -188,10 +188,16 @@ protected:
     //when try_lock fails, we need to register itself to waiting queue (_requests)
     bool subscribe(awaiter *aw) {
         //so subscribe to _requests
-        aw->subscribe(_requests);
-        //now check result of _next, which gives as hint, how lock operation ended
-        //if the _next is null, the lock was unlock
-        if (aw->_next== nullptr) [[likely]] {
+        //the predecessor observed by the successful CAS is kept in a local variable:
+        //once the awaiter is published, the current owner can already run build_queue(),
+        //rewrite aw->_next and resume the awaiter, so aw must not be read again here
+        awaiter *prev = _requests.load(std::memory_order_relaxed);
+        do {
+            aw->_next = prev;
+        } while (!_requests.compare_exchange_weak(prev, aw, std::memory_order_release, std::memory_order_relaxed));
+        //now check the predecessor, which gives as hint, how lock operation ended
+        //if it is null, the lock was unlock
+        if (prev == nullptr) [[likely]] {
             //because current awaiter will be destroyed, we need to replace self
             //with a doorman()
             //the function build_queue does this, even if there is no requests currentl
